@@ -135,7 +135,9 @@ func scalarBoundaries(k string, clean bool) []*Val {
 		for _, f := range src {
 			r = append(r, fv(f))
 		}
-		if !clean {
+		if !clean || k == "float64" {
+			// every float64 is inside the property (its type is the unbounded Float type); a non-finite float32 is the
+			// input class of the open finding float32-nonfinite
 			for _, f := range nonFinite {
 				if k == "float32" {
 					f = float64(float32(f)) // the exact float64 image of the float32 (NaN: 0x7FF8000000000000)
@@ -511,7 +513,7 @@ func randFloat(r *lib.Rng, k string, m genMode) *Val {
 			// only the canonical quiet NaN (the hardware may quieten others on float32 <-> float64 conversion)
 			f = float64(float32(math.NaN()))
 		}
-		if m.clean && (f != f || math.IsInf(f, 0)) {
+		if m.clean && k == "float32" && (f != f || math.IsInf(f, 0)) {
 			continue
 		}
 		return fv(f)
